@@ -55,6 +55,9 @@ type vfStep struct {
 	During []vfStep `json:"during"` // rewrite: requests issued from inside the compaction (after "tmp-written", one per file-system step)
 	Cpt    string   `json:"cpt"`    // restart: "faithful" = the start-up compaction runs free (as LoadAndInit starts it); else held until the replay has drained
 	Hard   bool     `json:"hard"`   // restart: do not Close() the old instance first (kill -9 after a drained queue)
+	Reqs   []vfStep `json:"reqs"`   // burst: requests issued while the log writer has not yet copied the records of the earlier ones
+	Rel    string   `json:"rel"`    // burst: order in which the channel goroutines are let run afterwards: "" as listed | "rev"
+	Child  bool     `json:"child"`  // stop: every recovery of this stop point (stop image, whole-record prefixes) is tried in a child process first
 }
 
 // ---------------------------------------------------------------- file helpers
@@ -159,7 +162,11 @@ type vfFile struct {
 }
 
 func vfPayloadHex(frame []byte) string {
-	// LockManagerData.GetData(): the frame as stored; we record the frame bytes (incl. 4-byte length) in hex
+	// LockManagerData.GetData(): the frame as stored; we record the frame bytes (incl. 4-byte length) in hex.
+	// The UNSET marker frame (2 0 0 0 1 0) is how the log says "the key has no value": GetData() of it is nil.
+	if len(frame) >= 5 && frame[4]&0x3f == 1 {
+		return ""
+	}
 	return hex.EncodeToString(frame)
 }
 
@@ -648,6 +655,18 @@ func vfDrain(aof *Aof) {
 			stable++
 		}
 	}
+	// the channel goroutine that went idle last flushes the write buffers AFTER it has left the active count
+	// (Aof.waitLockAofChannel): on a busy machine the three idle observations above can all fall between the two.
+	// "Drained" includes that flush - wait for it (bounded; nothing is forced).
+	for i := 0; i < 40000; i++ {
+		aof.aofGlock.Lock()
+		pending := aof.aofFile != nil && (aof.aofFile.windex > 0 || aof.aofFile.dwindex > 0)
+		aof.aofGlock.Unlock()
+		if !pending {
+			break
+		}
+		time.Sleep(50 * time.Microsecond)
+	}
 }
 
 func (d *vfDriver) quiesce(w *vWorld) {
@@ -771,6 +790,32 @@ func (d *vfDriver) recoverImage(imgDir string, tag map[string]interface{}, withD
 	}
 	vfClose(w2, true)
 	return nil
+}
+
+// recoverImageChild: like recoverImage(keep = false), but the start runs in a child process (a start that panics on
+// one of the code's own goroutines or hangs is an outcome, not the death of the driver).
+func (d *vfDriver) recoverImageChild(imgDir string, tag map[string]interface{}, withDisk bool) {
+	id, work := d.newImgDirLocked()
+	vfCopyDir(imgDir, work)
+	if withDisk {
+		ev := map[string]interface{}{"e": "disk", "img": id, "files": vfDecodeDir(work, d.base)}
+		for k, v := range tag {
+			ev[k] = v
+		}
+		d.tr.Emit(ev)
+	}
+	res := d.recoverChildren([]string{work})
+	d.tr.Emit(vfRecEvent(id, res[0], tag))
+	os.RemoveAll(work)
+}
+
+// probeChild: does a start on a copy of imgDir succeed (tried in a child process)?
+func (d *vfDriver) probeChild(imgDir string) bool {
+	_, work := d.newImgDirLocked()
+	vfCopyDir(imgDir, work)
+	res := d.recoverChildren([]string{work})
+	os.RemoveAll(work)
+	return res[0].Ok
 }
 
 // ---------------------------------------------------------------- recovery in a child process
@@ -984,7 +1029,11 @@ func (d *vfDriver) stepStop(st *vfStep) {
 	vfCopyDir(w.dir, img)
 	w.slock.aof.aofGlock.Unlock()
 	d.tr.Emit(map[string]interface{}{"e": "stop", "rt": w.now - d.base, "cuts": st.Cuts})
-	d.recoverImage(img, map[string]interface{}{"role": "stop"}, true, false)
+	if st.Child {
+		d.recoverImageChild(img, map[string]interface{}{"role": "stop"}, true)
+	} else {
+		d.recoverImage(img, map[string]interface{}{"role": "stop"}, true, false)
+	}
 	if st.Cuts != "" {
 		d.cuts(img, st)
 	}
@@ -1034,10 +1083,21 @@ func (d *vfDriver) cuts(img string, st *vfStep) {
 	for n := 0; n <= nrec; n++ {
 		dir := mk(12+64*int64(n), dEndAfter[n])
 		doE2 := st.E2Mod > 0 && len(st.Epoch2) > 0 && n >= nrec-1
-		w2 := d.recoverImage(dir, map[string]interface{}{"role": "prefix", "n": n}, false, doE2)
+		ptag := map[string]interface{}{"role": "prefix", "n": n, "file": newest.Name}
+		var w2 *vWorld
+		if st.Child && !(doE2 && d.probeChild(dir)) {
+			// a start that dies on this image (a panic on one of the code's own goroutines) must not take the driver with it
+			d.recoverImageChild(dir, ptag, false)
+		} else {
+			w2 = d.recoverImage(dir, ptag, false, doE2)
+		}
 		if w2 != nil {
 			stopDir := d.secondEpochBody(w2, st.Epoch2, "cut")
-			d.recoverImage(stopDir, map[string]interface{}{"role": "stop2", "ctx": "cut"}, true, false)
+			if st.Child {
+				d.recoverImageChild(stopDir, map[string]interface{}{"role": "stop2", "ctx": "cut"}, true)
+			} else {
+				d.recoverImage(stopDir, map[string]interface{}{"role": "stop2", "ctx": "cut"}, true, false)
+			}
 			d.tr.Emit(map[string]interface{}{"e": "e2end", "ctx": "cut"})
 			os.RemoveAll(stopDir)
 		}
@@ -1454,6 +1514,8 @@ func (d *vfDriver) run() {
 			d.stepRewrite(st)
 		case "restart":
 			d.stepRestart(st)
+		case "burst":
+			d.stepBurst(st)
 		default:
 			d.runBasic(d.w, st)
 			d.quiesce(d.w)
